@@ -179,8 +179,8 @@ func init() {
 			}
 			return ret1(tuple(MkI(v), &IfaceV{}))
 		}
-		ok := App("isdec", s)
-		v := App("undec", s)
+		ok := isDecT(s)
+		v := undecT(s)
 		lo, hi := intRange(64, true)
 		inr := And(Le(MkInt(lo), v), Le(v, MkInt(hi)))
 		return []Outcome{
@@ -270,7 +270,7 @@ func init() {
 	})
 	// ---- math (concrete floats)
 	f1 := func(f func(float64) float64) Intrinsic {
-		return func(c *CallCtx, a []Value) []Outcome { return ret1(&FloatV{f(a[0].(*FloatV).F)}) }
+		return func(c *CallCtx, a []Value) []Outcome { return ret1(&FloatV{F: f(a[0].(*FloatV).F)}) }
 	}
 	reg("math.Log2", f1(math.Log2))
 	reg("math.Ceil", f1(math.Ceil))
@@ -278,7 +278,7 @@ func init() {
 	reg("math.Exp2", f1(math.Exp2))
 	reg("math.Sqrt", f1(math.Sqrt))
 	reg("math.Pow", func(c *CallCtx, a []Value) []Outcome {
-		return ret1(&FloatV{math.Pow(a[0].(*FloatV).F, a[1].(*FloatV).F)})
+		return ret1(&FloatV{F: math.Pow(a[0].(*FloatV).F, a[1].(*FloatV).F)})
 	})
 	reg("math/bits.Len", func(c *CallCtx, a []Value) []Outcome {
 		t := a[0].(*Term)
@@ -354,11 +354,29 @@ func isLowerT(x *Term) *Term {
 	return App("islower", x)
 }
 
+// decT: decimal rendering (%d / strconv.Itoa), exact: SMT str.from_int with an explicit sign.
 func decT(t *Term) *Term {
 	if t.isI() {
 		return MkStr(t.IV.String())
 	}
-	return App("dec", t)
+	lo, _ := Bounds(t)
+	if lo != nil && lo.Sign() >= 0 {
+		return FromInt(t)
+	}
+	return Ite(Lt(t, MkI(0)), Concat(MkStr("-"), FromInt(Neg(t))), FromInt(t))
+}
+
+// undecT / isDecT: strconv.ParseInt(s, 10, 64) on symbolic input (sign handled, no leading '+').
+func isDecT(s *Term) *Term {
+	neg := PrefixOf(MkStr("-"), s)
+	body := Ite(neg, Substr(s, MkI(1), Sub(Len(s), MkI(1))), s)
+	return Le(MkI(0), ToInt(body))
+}
+
+func undecT(s *Term) *Term {
+	neg := PrefixOf(MkStr("-"), s)
+	body := Ite(neg, Substr(s, MkI(1), Sub(Len(s), MkI(1))), s)
+	return Ite(neg, Neg(ToInt(body)), ToInt(body))
 }
 
 func hexT(t *Term) *Term {
@@ -815,10 +833,10 @@ func registerBig() {
 			return ret1(tuple(p, TTrue))
 		}
 		// symbolic decimal string
-		ok := App("isdec", s)
+		ok := isDecT(s)
 		p := a[0].(*Ptr)
 		return []Outcome{
-			{Cond: ok, Do: func(st *State) { st.store(p, &BigV{App("undec", s)}) }, Ret: tuple(p, TTrue)},
+			{Cond: ok, Do: func(st *State) { st.store(p, &BigV{undecT(s)}) }, Ret: tuple(p, TTrue)},
 			{Cond: Not(ok), Ret: tuple(NilPtr, TFalse)},
 		}
 	})
